@@ -3,9 +3,11 @@ mod arr;
 mod c01;
 mod c02;
 mod c02s;
+mod c02v;
 mod c03;
 mod c03c;
 mod c05;
+mod c05c;
 mod c06;
 mod c15;
 mod c16;
@@ -45,6 +47,7 @@ fn exec_line(ctx: &mut Ctx, line: &str) -> String {
     let second = toks.next().unwrap_or("");
     match prop {
         "c01" | "c02" | "c04" | "c05" | "c06" | "c15" | "c16" | "c17" | "c20" => {
+            if prop == "c05" && (second == "pes" || second == "pesr") { return c05c::exec(line); }
             let (v, m) = parse_line(line);
             if second == "cfg" {
                 ctx.arr = None;
@@ -71,6 +74,7 @@ fn exec_line(ctx: &mut Ctx, line: &str) -> String {
         }
         "c03" => c03::exec(line),
         "c02s" => c02s::exec(line),
+        "c02v" => c02v::exec(line),
         "c18" => c18::exec(line),
         "c19" => {
             let (v, m) = parse_line(line);
@@ -145,6 +149,7 @@ fn main() {
                 "c01" => c01::generate(&a.tier, a.seed),
                 "c02" => c02::generate(&a.tier, a.seed),
                 "c02s" => c02s::generate(&a.tier, a.seed),
+                "c02v" => c02v::generate(&a.tier, a.seed),
                 "c03" => c03::generate(&a.tier, a.seed),
                 "c04" => c01::generate_c04(&a.tier, a.seed),
                 "c05" => c05::generate(&a.tier, a.seed),
